@@ -364,6 +364,20 @@ func argKind(e *Env, v ssa.Value, d int) (string, string) {
 			return "code", "compiled value expression"
 		case strings.HasSuffix(n, "strconv.FormatInt") || strings.HasSuffix(n, "strconv.Itoa"):
 			return "int", "number"
+		case (n == "strings.(Builder).String" || n == "bytes.(Buffer).String") && len(x.Call.Args) == 1:
+			// the text is what was written into the builder: as good as the worst thing written
+			worst, det := "code", "text assembled in a builder from checked parts"
+			if refs := x.Call.Args[0].Referrers(); refs != nil {
+				for _, ref := range *refs {
+					if wc, ok := ref.(*ssa.Call); ok && strings.Contains(callName(&wc.Call), ").WriteString") && len(wc.Call.Args) == 2 {
+						k, dd := argKind(e, wc.Call.Args[1], d+1)
+						if k == "raw" || k == "group" {
+							worst, det = k, dd
+						}
+					}
+				}
+			}
+			return worst, det
 		}
 		return "raw", "result of " + shortName(e.P.ModPath, n)
 	case *ssa.BinOp:
